@@ -382,3 +382,52 @@ def check_points(rec, idnt, kw, log, case, prefix=""):
                       "relative cp fit ran %d optimisation(s)" % len(log),
                       case)
     return "relative"
+
+
+ODD_KINDS = ("E-held-off", "cp-fixed-anywhere", "x-axis-height",
+             "narrow-absolute-range", "baseline-fixed-off")
+
+
+def draw_odd_fit(rng):
+    """description (plain values) of an unusual but legitimate fit request"""
+    return {"kind": ODD_KINDS[int(rng.integers(len(ODD_KINDS)))],
+            "u": float(rng.random()), "v": float(rng.random()),
+            "w": float(rng.random())}
+
+
+def odd_fit(idnt, mk, odd):
+    """Fit `idnt` (already fitted or at least preprocessed) in a way that
+    drives the result into a corner: contact point next to either end of the
+    approach, few points in the indentation or baseline part, other abscissa.
+    Raises whatever fit_model raises."""
+    from nanite import model as nmodel
+    p = nmodel.models_available[mk].get_parameter_defaults()
+    fp = idnt.fit_properties
+    x = np.asarray(idnt["tip position"])[np.asarray(idnt["segment"]) == 0]
+    lo, hi = float(np.min(x)), float(np.max(x))
+    kw = dict(model_key=mk, params_initial=p, segment=0, range_x=[0, 0],
+              range_type="absolute", x_axis="tip position",
+              weight_cp=0 if odd["w"] < .7 else 5e-7)
+    kind = odd["kind"]
+    if kind == "E-held-off":
+        e0 = fp["params_fitted"]["E"].value if "params_fitted" in fp \
+            else p["E"].value
+        p["E"].value = float(np.clip(e0 * 10 ** (-3 + 7 * odd["u"]),
+                                     1e-6, 1e12))
+        p["E"].vary = False
+    elif kind == "cp-fixed-anywhere":
+        p["contact_point"].value = lo - .1 * (hi - lo) \
+            + 1.2 * (hi - lo) * odd["u"]
+        p["contact_point"].vary = False
+    elif kind == "x-axis-height":
+        kw["x_axis"] = "height (measured)"
+    elif kind == "narrow-absolute-range":
+        c = lo + (hi - lo) * odd["u"]
+        h = (hi - lo) * (.01 + .2 * odd["v"])
+        kw["range_x"] = [c - h, c + h]
+    else:
+        f = np.asarray(idnt["force"])
+        p["baseline"].value = float(np.max(np.abs(f)) * (2 * odd["u"] - 1))
+        p["baseline"].vary = False
+    idnt.fit_model(**kw)
+    return kw
